@@ -50,6 +50,7 @@ func checkC04(p *Prog, r *Report) {
 	checkProxiesCancellable(p, r, rAnch, rSel, rGo)
 	checkEventSwitch(p, r, rEv)
 	checkEventsLossless(p, r, r.Rule("events-lossless", "an event is never dropped: every send of an Event blocks until taken (or the context ends)"))
+	checkHandlersStateless(p, r, r.Rule("handlers-stateless", "whether a callback's stream reaches the broker does not depend on state the server keeps beside the broker's (flags, counters written while it runs)"))
 	/* A transport fault which only shows when flushing must end the input
 	direction at once (and with it the shell), not when more traffic
 	arrives: the flush used can report failure whenever the writer can. */
@@ -698,4 +699,161 @@ func mayWaitForOthers(f *ssa.Function, depth int) bool {
 		})
 	}
 	return out
+}
+
+// mutableStateRead: v is read from state which outlives a request and changes
+// while the server runs: a load of a module struct's field which some method
+// of that struct (or a goroutine) stores to, an operation of sync/atomic on
+// such a field, or a package-level variable written after set-up.  Results of
+// module functions are looked into (two levels).
+func mutableStateRead(p *Prog, v ssa.Value, depth int) (string, bool) {
+	what := ""
+	found := operandsReach(v, func(x ssa.Value) bool {
+		switch t := x.(type) {
+		case *ssa.UnOp:
+			if token.MUL != t.Op {
+				return false
+			}
+			if fv, _ := fieldAddrOf(t.X); nil != fv && fieldStoredByMethods(p, fv) {
+				what = "field " + fv.Name()
+				return true
+			}
+			if g, ok := t.X.(*ssa.Global); ok && nil != g.Pkg && strings.HasPrefix(g.Pkg.Pkg.Path(), ModPath) && !p.stableGlobal(g) {
+				what = "variable " + g.Name()
+				return true
+			}
+		case *ssa.Call:
+			cc := t.Common()
+			callee := cc.StaticCallee()
+			if nil == callee {
+				return false
+			}
+			if nil != callee.Pkg && "sync/atomic" == callee.Pkg.Pkg.Path() && 0 != len(cc.Args) {
+				if fv, _ := fieldAddrOf(cc.Args[0]); nil != fv {
+					what = "atomic field " + fv.Name()
+					return true
+				}
+			}
+			if depth < 2 && nil != callee.Blocks && nil != callee.Pkg && strings.HasPrefix(callee.Pkg.Pkg.Path(), ModPath) {
+				hit := false
+				eachInstr(callee, func(i ssa.Instruction) {
+					ret, ok := i.(*ssa.Return)
+					if !ok || hit {
+						return
+					}
+					for _, rv := range ret.Results {
+						if w, ok := mutableStateRead(p, rv, depth+1); ok {
+							what, hit = w+" (through "+fnName(callee)+")", true
+							return
+						}
+					}
+				})
+				return hit
+			}
+		}
+		return false
+	})
+	return what, found
+}
+
+// fieldStoredByMethods: some function other than a constructor (a function
+// which is not a method and returns the struct) stores to the field.
+func fieldStoredByMethods(p *Prog, fv *types.Var) bool {
+	if r, ok := p.fieldMut[fv]; ok {
+		return r
+	}
+	res := false
+	for _, fn := range p.Funcs() {
+		top := fn
+		for nil != top.Parent() {
+			top = top.Parent()
+		}
+		if nil == top.Signature.Recv() && fn == top {
+			/* A constructor's own frame. */
+			continue
+		}
+		eachInstr(fn, func(i ssa.Instruction) {
+			fa, ok := i.(*ssa.FieldAddr)
+			if !ok || res {
+				return
+			}
+			if f2, _ := fieldAddrOf(fa); f2 != fv {
+				return
+			}
+			/* Stored to, or its address handed on (a slot pointer, a
+			phi of slots, an argument): anything but being read. */
+			for _, u := range *fa.Referrers() {
+				if ld, isLoad := u.(*ssa.UnOp); isLoad && token.MUL == ld.Op {
+					continue
+				}
+				if st, isStore := u.(*ssa.Store); isStore && st.Addr != ssa.Value(fa) {
+					continue
+				}
+				if _, isDbg := u.(*ssa.DebugRef); isDbg {
+					continue
+				}
+				res = true
+			}
+		})
+		if res {
+			break
+		}
+	}
+	if nil == p.fieldMut {
+		p.fieldMut = map[*types.Var]bool{}
+	}
+	p.fieldMut[fv] = res
+	return res
+}
+
+// checkHandlersStateless: whether a callback's stream is handed to the broker
+// is the broker's decision alone.  A handler which turns streams away on
+// state of its own that changes while the server runs (a "busy" flag kept
+// from events, a counter) has a second, unsynchronised notion of "a shell is
+// attached": after a shell has gone the next one can be refused although the
+// broker would take it.
+func checkHandlersStateless(p *Prog, r *Report, ru *Rule) {
+	n := 0
+	seen := map[*ssa.Call]bool{}
+	for _, rt := range muxRoutes(p) {
+		if nil == rt.Handler {
+			continue
+		}
+		for _, f := range withAnons(rt.Handler) {
+			eachInstr(f, func(i ssa.Instruction) {
+				call, ok := i.(*ssa.Call)
+				if !ok || seen[call] {
+					return
+				}
+				cc := call.Common()
+				if nil == cc.StaticCallee() || "Broker" != recvTypeName(cc.StaticCallee()) || !strings.HasPrefix(cc.StaticCallee().Name(), "Connect") {
+					return
+				}
+				seen[call] = true
+				n++
+				c := fmt.Sprintf("%s→%s:unconditional", fnName(rt.Handler), cc.StaticCallee().Name())
+				bad := false
+				eachInstr(f, func(j ssa.Instruction) {
+					ifi, ok := j.(*ssa.If)
+					if !ok || bad {
+						return
+					}
+					r0, r1 := canReachEdge(ifi, 0, call), canReachEdge(ifi, 1, call)
+					if r0 == r1 {
+						return
+					}
+					if what, ok := mutableStateRead(p, ifi.Cond, 0); ok {
+						bad = true
+						ru.Bad(c, posOf(ifi), "whether the stream reaches the broker depends on %s, state of the server's own which changes while it runs: a shell can be turned away although the broker is free again", what)
+					}
+				})
+				if !bad {
+					ru.OK(c, posOf(call), "no branch on the way to the broker reads state which changes while the server runs")
+				}
+			})
+		}
+	}
+	if n < 3 {
+		ru.Unproven("handlers", token.NoPos, "%d calls of the broker's Connect* found in the handlers, 3 expected", n)
+	}
 }
